@@ -56,6 +56,9 @@ CLAIMS = {
     "C11": ("proof", "column-specification set agreement and per-spec field identity between writer, validator and reader of the op columns and of the change-graph columns (MIR switch values, named constants with evaluated values, provenance into struct fields)",
             "Proves that the sets of column specs written by export_column / ChangeGraph::encode, accepted by validate and read by load are equal (16 and 9) and that each spec is saved from and loaded into the same struct field (hence with the same codec).",
             "Thin: everything value-level in C11 (equal heads, bytes, historical state, idempotent re-save) is not decided.", "DESIGN.md §3 C11"),
+    "C28": ("proof", "do/undo sibling agreement on mutated-field sets (MIR mutable borrows and writes rooted at self, closures and same-type helpers included), reverse-order undo and guard in rollback, must-pass-through from every op-set mutation in a transaction to pending.push, storage of the undo list",
+            "Proves for six do/undo pairs (successor columns, Columns splice/remove, OpSet splice/undo_op, and the three insert_actor/remove_actor pairs) that the backward half touches every field the forward half mutates; that rollback undoes pending ops in reverse via undo_op and removes the actor only for a first change; and that every mutation of the op set inside a transaction is pushed onto pending with its undo list stored.",
+            "Decides that nothing mutated by an aborted transaction is left without an undo path; does not decide that the restored values equal the prior ones.", "DESIGN.md §3 C28"),
 }
 
 NA_PLANNED = "rule designed in DESIGN.md §3 but its checker is not built in this revision, so nothing is claimed yet"
